@@ -44,6 +44,7 @@ func AcquireDirLock(dir string, fs vfs.FS) (*DirLock, error) {
 	if !ok {
 		return nil, fmt.Errorf("dirlock: file %q does not expose descriptor", lockPath)
 	}
+	VerifYield("dirlock.flock")
 	if err := syscall.Flock(int(fd), syscall.LOCK_EX|syscall.LOCK_NB); err != nil {
 		if errors.Is(err, syscall.EWOULDBLOCK) {
 			return nil, fmt.Errorf("dirlock: directory %q already in use", dir)
